@@ -8,3 +8,4 @@ import EdxmlProps.C14
 import EdxmlProps.C19
 import EdxmlProps.C18
 import EdxmlProps.C09
+import EdxmlProps.C12
